@@ -277,11 +277,15 @@ func (s *kvSUT) Apply(e core.Ev) (any, any) {
 			}
 			return true
 		}
-		var err error
+		dir := hkv.IterDirectionForward
 		if core.Str(e, "dir") == "bwd" {
-			err = view.Iterate(getBytes(e, "k"), consume, hkv.IterDirectionBackward)
+			dir = hkv.IterDirectionBackward
+		}
+		var err error
+		if core.Bool(e, "keys") {
+			err = view.IterateKeys(getBytes(e, "k"), func(k hkv.Key) bool { return consume(k, []byte{}) }, dir)
 		} else {
-			err = view.Iterate(getBytes(e, "k"), consume, hkv.IterDirectionForward)
+			err = view.Iterate(getBytes(e, "k"), consume, dir)
 		}
 		return core.Ev{"err": errName(err), "kv": kvSeq(out), "inner": inner}, s.st()
 	case "IterateKeys":
@@ -481,10 +485,16 @@ func (s *kvSUT) RandomStimulus(r *rand.Rand) core.Ev {
 			return core.Ev{"op": "IterateKeys", "v": p.v, "k": bs(p.k), "dir": dir, "n": n}
 		case x < 59:
 			p, q := s.prefixPair(r), s.poolPair(r)
-			if r.Intn(2) == 0 {
-				return core.Ev{"op": "IterMut", "v": p.v, "k": bs(p.k), "dir": dir, "mv": q.v, "mk": bs(q.k), "del": true, "val": []any{}}
+			if len(p.k) > 1 { // (the model's IterMut stimuli use prefixes and keys of at most one byte)
+				p.k = p.k[:1]
 			}
-			return core.Ev{"op": "IterMut", "v": p.v, "k": bs(p.k), "dir": dir, "mv": q.v, "mk": bs(q.k), "del": false, "val": bs([]byte{2})}
+			if len(q.k) > 1 {
+				q.k = q.k[:1]
+			}
+			if r.Intn(2) == 0 {
+				return core.Ev{"op": "IterMut", "keys": r.Intn(2) == 0, "v": p.v, "k": bs(p.k), "dir": dir, "mv": q.v, "mk": bs(q.k), "del": true, "val": []any{}}
+			}
+			return core.Ev{"op": "IterMut", "keys": r.Intn(2) == 0, "v": p.v, "k": bs(p.k), "dir": dir, "mv": q.v, "mk": bs(q.k), "del": false, "val": bs([]byte{2})}
 		case x < 61:
 			return core.Ev{"op": "Flush", "v": v}
 		case x < 62:
